@@ -62,7 +62,10 @@ extern("queue.qsize", event="queue.qsize", returns=Int)
 extern("noise.receive", event="noise.receive", raises=True, returns=Opaque)
 
 
-@contract(NOISE, "YowNoiseLayer._flush_incoming_buffer")
+opaque(NOISE, "YowNoiseLayer._flush_incoming_buffer", event="flush", raises=True)
+
+
+@contract(NOISE, "YowNoiseLayer._flush_incoming_buffer", opaque_at_calls=True)
 def _flush_incoming_buffer(self: Obj("YowNoiseLayer")):
     requires(not self._flush_lock.held)
     ensures(not self._flush_lock.held)
